@@ -116,7 +116,11 @@ func scalarRecv(f func(r *secp.ModNScalar, o [][]uint64, s []uint64) (uint64, bo
 
 var adapters = map[string]adapter{
 	"Field_Zero": fieldRecv(func(r *secp.FieldVal, o [][]uint64, s []uint64) (uint64, bool) { r.Zero(); return 0, false }),
-	"Field_Set":  fieldRecv(func(r *secp.FieldVal, o [][]uint64, s []uint64) (uint64, bool) { r.Set(fv(o[1])); return 0, false }),
+	"Field_Set": fieldRecv(func(r *secp.FieldVal, o [][]uint64, s []uint64) (uint64, bool) {
+		checkFieldAlias1("Set", func(r, a *secp.FieldVal) { r.Set(a) }, fv(o[1]))
+		r.Set(fv(o[1]))
+		return 0, false
+	}),
 	"Field_SetInt": fieldRecv(func(r *secp.FieldVal, o [][]uint64, s []uint64) (uint64, bool) {
 		r.SetInt(uint16(s[0]))
 		return 0, false
@@ -139,6 +143,8 @@ var adapters = map[string]adapter{
 	"Field_IsOdd":     fieldRecv(func(r *secp.FieldVal, o [][]uint64, s []uint64) (uint64, bool) { return b2u(r.IsOdd()), true }),
 	"Field_Equals":    fieldRecv(func(r *secp.FieldVal, o [][]uint64, s []uint64) (uint64, bool) { return b2u(r.Equals(fv(o[1]))), true }),
 	"Field_NegateVal": fieldRecv(func(r *secp.FieldVal, o [][]uint64, s []uint64) (uint64, bool) {
+		m := uint32(s[0])
+		checkFieldAlias1("NegateVal", func(r, a *secp.FieldVal) { r.NegateVal(a, m) }, fv(o[1]))
 		r.NegateVal(fv(o[1]), uint32(s[0]))
 		return 0, false
 	}),
@@ -148,6 +154,7 @@ var adapters = map[string]adapter{
 	}),
 	"Field_Add": fieldRecv(func(r *secp.FieldVal, o [][]uint64, s []uint64) (uint64, bool) { r.Add(fv(o[1])); return 0, false }),
 	"Field_Add2": fieldRecv(func(r *secp.FieldVal, o [][]uint64, s []uint64) (uint64, bool) {
+		checkFieldAlias2("Add2", func(r, a, b *secp.FieldVal) { r.Add2(a, b) }, fv(o[1]), fv(o[2]))
 		r.Add2(fv(o[1]), fv(o[2]))
 		return 0, false
 	}),
@@ -156,10 +163,12 @@ var adapters = map[string]adapter{
 		return 0, false
 	}),
 	"Field_Mul2": fieldRecv(func(r *secp.FieldVal, o [][]uint64, s []uint64) (uint64, bool) {
+		checkFieldAlias2("Mul2", func(r, a, b *secp.FieldVal) { r.Mul2(a, b) }, fv(o[1]), fv(o[2]))
 		r.Mul2(fv(o[1]), fv(o[2]))
 		return 0, false
 	}),
 	"Field_SquareVal": fieldRecv(func(r *secp.FieldVal, o [][]uint64, s []uint64) (uint64, bool) {
+		checkFieldAlias1("SquareVal", func(r, a *secp.FieldVal) { r.SquareVal(a) }, fv(o[1]))
 		r.SquareVal(fv(o[1]))
 		return 0, false
 	}),
@@ -224,6 +233,7 @@ var adapters = map[string]adapter{
 		return b2u(r.Equals(sv(o[1]))), true
 	}),
 	"Scalar_Add2": scalarRecv(func(r *secp.ModNScalar, o [][]uint64, s []uint64) (uint64, bool) {
+		checkScalarAlias2("Scalar.Add2", func(r, a, b *secp.ModNScalar) { r.Add2(a, b) }, sv(o[1]), sv(o[2]))
 		r.Add2(sv(o[1]), sv(o[2]))
 		return 0, false
 	}),
@@ -240,10 +250,12 @@ var adapters = map[string]adapter{
 		return 0, false
 	}),
 	"Scalar_Mul2": scalarRecv(func(r *secp.ModNScalar, o [][]uint64, s []uint64) (uint64, bool) {
+		checkScalarAlias2("Scalar.Mul2", func(r, a, b *secp.ModNScalar) { r.Mul2(a, b) }, sv(o[1]), sv(o[2]))
 		r.Mul2(sv(o[1]), sv(o[2]))
 		return 0, false
 	}),
 	"Scalar_NegateVal": scalarRecv(func(r *secp.ModNScalar, o [][]uint64, s []uint64) (uint64, bool) {
+		checkScalarAlias1("Scalar.NegateVal", func(r, a *secp.ModNScalar) { r.NegateVal(a) }, sv(o[1]))
 		r.NegateVal(sv(o[1]))
 		return 0, false
 	}),
@@ -260,6 +272,84 @@ var adapters = map[string]adapter{
 }
 
 var resultWords []uint64
+
+// aliasFault is set by an adapter when calling the method with the receiver aliasing an argument gives another
+// result than calling it on distinct objects holding the same values; runKernel appends it to the answer.
+var aliasFault string
+
+func sameF(a, b *secp.FieldVal) bool { return secp.VerifFieldRaw(a) == secp.VerifFieldRaw(b) }
+func sameS(a, b *secp.ModNScalar) bool { return secp.VerifScalarRaw(a) == secp.VerifScalarRaw(b) }
+
+// checkFieldAlias2: r.op(a, b) must not depend on r being the same object as a and/or b
+func checkFieldAlias2(name string, op func(r, a, b *secp.FieldVal), a, b *secp.FieldVal) {
+	var want secp.FieldVal
+	op(&want, a, b)
+	x, y := *a, *b
+	op(&x, &x, &y) // receiver = first argument
+	if !sameF(&x, &want) {
+		aliasFault = name + ":recv=arg1"
+	}
+	x, y = *a, *b
+	op(&y, &x, &y) // receiver = second argument
+	if !sameF(&y, &want) {
+		aliasFault = name + ":recv=arg2"
+	}
+	if sameF(a, b) {
+		x = *a
+		op(&x, &x, &x)
+		if !sameF(&x, &want) {
+			aliasFault = name + ":recv=arg1=arg2"
+		}
+		x = *a
+		var z secp.FieldVal
+		op(&z, &x, &x)
+		if !sameF(&z, &want) {
+			aliasFault = name + ":arg1=arg2"
+		}
+	}
+}
+
+func checkFieldAlias1(name string, op func(r, a *secp.FieldVal), a *secp.FieldVal) {
+	var want secp.FieldVal
+	op(&want, a)
+	x := *a
+	op(&x, &x)
+	if !sameF(&x, &want) {
+		aliasFault = name + ":recv=arg"
+	}
+}
+
+func checkScalarAlias2(name string, op func(r, a, b *secp.ModNScalar), a, b *secp.ModNScalar) {
+	var want secp.ModNScalar
+	op(&want, a, b)
+	x, y := *a, *b
+	op(&x, &x, &y)
+	if !sameS(&x, &want) {
+		aliasFault = name + ":recv=arg1"
+	}
+	x, y = *a, *b
+	op(&y, &x, &y)
+	if !sameS(&y, &want) {
+		aliasFault = name + ":recv=arg2"
+	}
+	if sameS(a, b) {
+		x = *a
+		op(&x, &x, &x)
+		if !sameS(&x, &want) {
+			aliasFault = name + ":recv=arg1=arg2"
+		}
+	}
+}
+
+func checkScalarAlias1(name string, op func(r, a *secp.ModNScalar), a *secp.ModNScalar) {
+	var want secp.ModNScalar
+	op(&want, a)
+	x := *a
+	op(&x, &x)
+	if !sameS(&x, &want) {
+		aliasFault = name + ":recv=arg"
+	}
+}
 
 func kindLen(kind string) int {
 	switch kind {
@@ -302,6 +392,7 @@ func runKernel(name string, in []uint64) string {
 			objs[oi][si] = in[i]
 		}
 	}
+	aliasFault = ""
 	ret, _ := ad(objs, scal)
 	var out []string
 	for _, ref := range sig.Out {
@@ -316,6 +407,9 @@ func runKernel(name string, in []uint64) string {
 			fmt.Sscanf(ref, "o%d:%d", &oi, &si)
 			out = append(out, strconv.FormatUint(objs[oi][si], 10))
 		}
+	}
+	if aliasFault != "" {
+		out = append(out, "ALIAS-DEPENDENT("+aliasFault+")")
 	}
 	return strings.Join(out, " ")
 }
